@@ -39,6 +39,7 @@ LEVEL = {
                    "key construction decided by C10.",
     "technique": "static analysis: path enumeration + finite-domain abstract evaluation of the cache update block",
 }
+LEVEL["decided"] += ' (R11.7) the counter discipline of cache_clear / cache_info (R10.3, shared); (R11.8) the key table (R10.1, shared).'
 
 MAX = 2  # representative maxsize for the abstract cells
 
